@@ -263,13 +263,14 @@ func traceOf(c *hcCase, skip int) (steps map[int]string, final map[string]string
 			rejErr = r.CfgError
 			continue
 		}
-		told := []string{}
-		for _, t := range r.Told {
-			told = append(told, fmt.Sprintf("%s:%s cpus=%s mems=%s shares=%d", t.Kind, t.Target,
-				vfkit.MustParseIDSet(t.Res.GetCpu().GetCpus()), vfkit.MustParseIDSet(t.Res.GetCpu().GetMems()), t.Res.GetCpu().GetShares().GetValue()))
+		// decisions = outcome of the request and the resulting runtime view of
+		// every live container (re-sent equal values are not a difference)
+		view := []string{}
+		for _, c := range e.m.live() {
+			view = append(view, fmt.Sprintf("%s cpus=%s mems=%s shares=%d", c.ID, vfkit.MustParseIDSet(c.Res.Cpus), vfkit.MustParseIDSet(c.Res.Mems), c.Res.Shares))
 		}
-		sort.Strings(told)
-		steps[i] = fmt.Sprintf("%s err=%v cfgerr=%v told=%v", r.Handler, r.Err != nil, r.CfgError != nil, told)
+		sort.Strings(view)
+		steps[i] = fmt.Sprintf("%s err=%v cfgerr=%v runtime=%v", r.Handler, r.Err != nil, r.CfgError != nil, view)
 	}
 	return steps, e.observables(), accepted, rejErr, nil
 }
@@ -284,14 +285,28 @@ func c13TwinCheck(tc *c13TwinCase, st *vfkit.Stats) (v *vfkit.Violation, labels 
 	if err != nil {
 		return nil, []string{"config-rejected-at-start"}, false
 	}
-	b2, f2, _, _, _ := traceOf(&a, tc.Pos)
-	if fmt.Sprint(b1) != fmt.Sprint(b2) || len(diffMaps(f1, f2)) > 0 {
-		if st != nil {
-			st.SelfCheckFailed()
+	// map-order dependent code paths (re-pinning order, Synchronize order) make
+	// some histories legitimately non-deterministic: both twins must reproduce
+	// themselves three times before a difference between them is believed
+	for i := 0; i < 2; i++ {
+		b2, f2, _, _, _ := traceOf(&a, tc.Pos)
+		if fmt.Sprint(b1) != fmt.Sprint(b2) || len(diffMaps(f1, f2)) > 0 {
+			if st != nil {
+				st.SelfCheckFailed()
+			}
+			return nil, []string{"self-check-failed"}, false
 		}
-		return nil, []string{"self-check-failed"}, false
 	}
 	as, fa, accepted, rejErr, _ := traceOf(&a, -1)
+	for i := 0; i < 2 && !accepted; i++ {
+		as2, fa2, _, _, _ := traceOf(&a, -1)
+		if fmt.Sprint(as) != fmt.Sprint(as2) || len(diffMaps(fa, fa2)) > 0 {
+			if st != nil {
+				st.SelfCheckFailed()
+			}
+			return nil, []string{"self-check-failed"}, false
+		}
+	}
 	labels = []string{"kind:" + tc.Kind}
 	if accepted {
 		return nil, append(labels, "update-was-accepted"), false
@@ -326,6 +341,16 @@ func c13GenTwin(t *rapid.T, policy string) *c13TwinCase {
 	if policy == polTA {
 		base = genTACase(t, genOpts{Policy: polTA, MinOps: 6, MaxOps: 24, ExclHeavy: true, NoUpdates: false})
 		kinds = rejKindsTA
+		// topology-aware Synchronize re-allocates containers in Go map order,
+		// which makes two runs of the same history differ legitimately: twins
+		// contain no Synchronize
+		ops := []hcOp{}
+		for _, op := range base.Ops {
+			if op.Kind != "sync" {
+				ops = append(ops, op)
+			}
+		}
+		base.Ops = ops
 	} else {
 		base = genBalloonsCase(t, genOpts{Policy: polBalloons, MinOps: 6, MaxOps: 24, FillPools: true})
 		kinds = rejKindsBln
@@ -333,7 +358,7 @@ func c13GenTwin(t *rapid.T, policy string) *c13TwinCase {
 	k := rapid.SampledFrom(kinds).Draw(t, "rejKind")
 	bad := base.Config.clone()
 	k.apply(bad, base.Topo)
-	return &c13TwinCase{Case: base, Pos: rapid.IntRange(2, len(base.Ops)).Draw(t, "pos"), Kind: k.name, BadCfg: bad}
+	return &c13TwinCase{Case: base, Pos: rapid.IntRange(1, max(1, len(base.Ops))).Draw(t, "pos"), Kind: k.name, BadCfg: bad}
 }
 
 func c13TwinTest(t *testing.T, policy, unit string) {
